@@ -105,7 +105,12 @@ func (p *Parser) parseHeader(data []byte) (header *parser.PacketHeader, buf []by
 		}
 
 		header.Namespace = string(data[:i])
-		data = data[i+1:]
+		if i < len(data) {
+			data = data[i+1:]
+		} else {
+			// There is nothing after the namespace (not even a comma).
+			data = data[i:]
+		}
 	} else {
 		header.Namespace = "/"
 	}
